@@ -126,7 +126,12 @@ QUERIES = [
     ("SELECT DISTINCT vp_yield('x', lineno) * 0, currency FROM #postings ORDER BY 2", None),
     ("SELECT date, vp_yield('x', lineno), position FROM #postings ORDER BY date DESC LIMIT 5", None),
     ("SELECT %(a)s + vp_yield('x', lineno), balance FROM #postings LIMIT 4", {'a': 5}),
+    # yield points in the output phase of an aggregate query (between finalising and reading the aggregates of a group)
+    ("SELECT account, vp_yield('x', count(*)) AS n, sum(number) AS total FROM #postings GROUP BY account ORDER BY account", None),
+    ("SELECT currency, sum(number) AS total, vp_yield('x', count(number)) AS n FROM #postings WHERE number > 0 GROUP BY currency "
+     "HAVING vp_yield('x', count(*)) > 0 ORDER BY currency", None),
 ]
+OUTPUT_PHASE = (8, 9)
 
 
 def audit_fingerprint(conn):
@@ -157,11 +162,14 @@ def run(ctx):
     for lk in range(nled):
         text, entries, errors, options = ledgers.gen_ledger(rng, ntxn=rng.range(3, 6))
         shared = ledgers.connect(entries, errors, options)
-        other = ledgers.connect(entries, errors, options)
+        if lk % 2 == 0:
+            other = ledgers.connect(entries, errors, options)               # the same ledger on another connection
+        else:
+            other = ledgers.connect(*ledgers.gen_ledger(rng, ntxn=rng.range(3, 6))[1:])    # a different ledger
         before = audit_fingerprint(shared)
         pairs = list(itertools.product(range(len(QUERIES)), repeat=2))
         if not ctx.thorough():
-            pairs = [p for n, p in enumerate(rng.shuffle(pairs)) if n < 14] + [(0, 0), (0, 3), (3, 3)]
+            pairs = [p for n, p in enumerate(rng.shuffle(pairs)) if n < 12] + [(0, 0), (0, 3), (3, 3), (8, 8), (9, 9), (8, 9), (0, 1)]
         for qa, qb in pairs:
             queries = [QUERIES[qa][0], QUERIES[qb][0]]
             params = [QUERIES[qa][1], QUERIES[qb][1]]
@@ -169,6 +177,8 @@ def run(ctx):
                 want = serial(conns, queries, params)
                 # all interleavings of the first two yield points of each thread
                 scheds = sorted(set(itertools.permutations([0, 0, 1, 1])))
+                # strict alternation and blocks, long enough to cover whole scans of the small ledgers
+                scheds += [tuple([0, 1] * 12), tuple([1, 0] * 12), tuple([0, 0, 1] * 8), tuple([1, 1, 0, 0] * 6)]
                 # plus seeded longer schedules
                 for _ in range(2 if not ctx.thorough() else 6):
                     scheds.append(tuple(rng.below(2) for _ in range(rng.range(5, 14))))
